@@ -343,7 +343,7 @@ func (f *FnVC) applyContract(st *State, ct *spec.FuncContract, fn *ssa.Function,
 	}
 	// preconditions
 	for i, r := range ct.Requires {
-		if f.Ct != nil && f.Ct.Swept && (strings.Contains(r.Text, "rwf(") || strings.Contains(r.Text, ".@")) {
+		if f.Ct != nil && (f.Ct.Swept || f.Ct.GhostPre) && (strings.Contains(r.Text, "rwf(") || strings.Contains(r.Text, ".@")) {
 			// swept functions carry only the panic-value and allocation obligations: callee preconditions about the ghost
 			// stream model (reader well-formedness) are assumed there; preconditions over real values are still checked
 			continue
@@ -497,6 +497,11 @@ func (f *FnVC) havocByModset(st *State, fn *ssa.Function, c *ssa.CallCommon, arg
 	if ms.all {
 		keeps = f.guardedKeeps(st, f.modsetCompNames(ms))
 	}
+	// captured variables that only this function's own closures can reach are as good as locals for any other callee
+	savedLocals := st.Locals
+	if pk := f.privateKeeps(fn); len(pk) > 0 {
+		st.Locals = append(append([]Term{}, st.Locals...), pk...)
+	}
 	f.preserveLocalsOnHavoc = true
 	f.havocKeeps = keeps
 	f.havocModset(st, ms)
@@ -504,6 +509,7 @@ func (f *FnVC) havocByModset(st *State, fn *ssa.Function, c *ssa.CallCommon, arg
 	f.havocKeeps = nil
 	// memory of non-escaping locals cannot be touched by a callee
 	f.applyKeeps(st, before, st.Locals, nil)
+	st.Locals = savedLocals
 	// memory reachable from the arguments (one level) for callees outside the analysed module
 	if ms.argReach && !ms.all {
 		for _, a := range args {
